@@ -89,10 +89,17 @@ def run(db, cx):
     acc = accessor_summary(db)
     tos = {}
     froms = {}
+    # the property is about the geometry input: only the ORANGE / geocel / label I/O
+    in_scope = lambda f: f.loc.startswith(("src/orange/", "src/geocel/", "src/corecel/io/Label",
+                                           "src/corecel/cont/ArrayIO"))
     for f in db.get(C + "to_json"):
+        if not in_scope(f):
+            continue
         if len(f.r["params"]) == 2 and "basic_json" in f.r["params"][0]["cty"]:
             tos.setdefault(rec_of(f), []).append(f)
     for f in db.get(C + "from_json"):
+        if not in_scope(f):
+            continue
         if len(f.r["params"]) == 2 and "basic_json" in f.r["params"][0]["cty"]:
             froms.setdefault(rec_of(f), []).append(f)
     pairs = sorted(k for k in tos if k in froms and k)
@@ -198,8 +205,8 @@ def run(db, cx):
                 for (k, how2, cond2, pos2, ev2) in key_events(src):
                     if k != key or how2 != "find":
                         continue
-                    for br in src.branch_blocks(lambda c, _b: c.get("op") in ("!=", "==") and "iter" in
-                                                c.get("lrefs", []) + c.get("refs", [])):
+                    for br in src.branch_blocks(lambda c, _b: c.get("op") in ("!=", "==") and any(
+                            x.endswith("basic_json::end") for x in c.get("lcalls", []) + c.get("rcalls", []))):
                         if not src.dominates(pos2, (br, 10 ** 6)):
                             continue
                         c = src.blocks[br]["cond"]
